@@ -122,8 +122,57 @@ func SplitParts(r *rand.Rand, c *cfg.Config, k int) []cfg.Config {
 	return parts
 }
 
-// Split renders the configuration as 1 (mode 0), 2 (mode 1) or 4 (mode 2) files; each file is its own -i pattern, in order.
+// PureParts cuts the configuration into k fragments of which k-1 hold exactly ONE section each (only
+// meta.functions, only decorators, only a meta scalar, ...), whole; the last fragment holds everything else.
+// The fragments are returned in random order (no key is in two fragments, so the order is immaterial).
+func PureParts(r *rand.Rand, c *cfg.Config, k int) []cfg.Config {
+	rest := c.Clone()
+	type kind struct {
+		has  bool
+		move func(dst *cfg.Config)
+	}
+	kinds := []kind{
+		{c.Version != nil, func(d *cfg.Config) { d.Version, rest.Version = rest.Version, nil }},
+		{c.Meta.Pkg != nil, func(d *cfg.Config) { d.Meta.Pkg, rest.Meta.Pkg = rest.Meta.Pkg, nil }},
+		{c.Meta.ContainerType != nil, func(d *cfg.Config) { d.Meta.ContainerType, rest.Meta.ContainerType = rest.Meta.ContainerType, nil }},
+		{c.Meta.ContainerConstructor != nil, func(d *cfg.Config) {
+			d.Meta.ContainerConstructor, rest.Meta.ContainerConstructor = rest.Meta.ContainerConstructor, nil
+		}},
+		{c.Meta.DefaultMustGetter != nil, func(d *cfg.Config) { d.Meta.DefaultMustGetter, rest.Meta.DefaultMustGetter = rest.Meta.DefaultMustGetter, nil }},
+		{len(c.Meta.Imports) > 0, func(d *cfg.Config) { d.Meta.Imports, rest.Meta.Imports = rest.Meta.Imports, nil }},
+		{len(c.Meta.Functions) > 0, func(d *cfg.Config) { d.Meta.Functions, rest.Meta.Functions = rest.Meta.Functions, nil }},
+		{len(c.Params) > 0, func(d *cfg.Config) { d.Params, rest.Params = rest.Params, nil }},
+		{len(c.Services) > 0, func(d *cfg.Config) { d.Services, rest.Services = rest.Services, nil }},
+		{len(c.Decorators) > 0, func(d *cfg.Config) { d.Decorators, rest.Decorators = rest.Decorators, nil }},
+	}
+	var present []int
+	for i, kd := range kinds {
+		if kd.has {
+			present = append(present, i)
+		}
+	}
+	r.Shuffle(len(present), func(i, j int) { present[i], present[j] = present[j], present[i] })
+	parts := make([]cfg.Config, k)
+	for i := 0; i < k-1 && i < len(present); i++ {
+		kinds[present[i]].move(&parts[i])
+	}
+	parts[k-1] = rest
+	r.Shuffle(k, func(i, j int) { parts[i], parts[j] = parts[j], parts[i] })
+	return parts
+}
+
+// Split renders the configuration as 1 (mode 0), 2 (mode 1), 4 (mode 2) or 4 single-section (mode 3) files; each file is its own -i pattern, in order.
 func Split(r *rand.Rand, c *cfg.Config, mode int) []cfg.File {
+	if mode == 3 {
+		// four files, three of them holding a single section each
+		names := fileNameSets[2]
+		parts := PureParts(r, c, len(names))
+		files := make([]cfg.File, len(names))
+		for i := range names {
+			files[i] = cfg.File{Name: names[i], Content: parts[i].YAML()}
+		}
+		return files
+	}
 	names := fileNameSets[mode%len(fileNameSets)]
 	parts := SplitParts(r, c, len(names))
 	files := make([]cfg.File, len(names))
